@@ -16,9 +16,10 @@ def stepLine (st : St) (line : String) : St × String :=
   match tokens line with
   | ["case", "re", pid] =>
     let pr : Option (Str → Bool) := match pid with
-      | "txt" => some predTxt | "a" => some predA | "x" => some predX | "ac" => some predAC | _ => none
+      | "txt" => some predTxt | "a" => some predA | "x" => some predX | "ac" => some predAC | "nodot" => some predNoDot | _ => none
     match pr with
-    | some p => ({ s := {}, pred := p }, "case")
+    -- (as repaired) the pattern is applied to filepath.Clean(name); a listing entry's base name is clean already
+    | some p => ({ s := {}, pred := fun n => p (Path.clean n) }, "case")
     | none => ({ s := {}, modelled := false }, "case")
   | "case" :: _ => ({ s := {}, modelled := false }, "case")
   | toks =>
